@@ -432,6 +432,38 @@ func signing(r *ev.Run) {
 		}
 		r.Nontrivial(fmt.Sprintf("seq:%v:%v", list, hist))
 	}
+	// the same endpoint configured twice: every occurrence is tried in order
+	if c := r.Case("sign-duplicate-endpoints", 0); c != nil {
+		for variant, first := range []bool{false, true} {
+			list := []string{ips[0], ips[0], ips[1]}
+			calls := 0
+			text0, _, _ := reply(c.Rand, 2)
+			byIP[ips[0]].Set(func(context.Context, *proto.SSHCertificateSigningRequest) (*proto.SSHKey, error) {
+				calls++
+				if first || calls >= 2 {
+					return &proto.SSHKey{Key: text0}, nil
+				}
+				return nil, status.Error(codes.Unavailable, "first attempt fails")
+			})
+			byIP[ips[1]].Set(func(context.Context, *proto.SSHCertificateSigningRequest) (*proto.SSHKey, error) {
+				return nil, status.Error(codes.Internal, "must not be needed")
+			})
+			signer, err := crypki.NewSigner(crypki.SignerConfig{TLSClientKeyFile: clientKey, TLSClientCertFile: clientCert, TLSCACertFiles: []string{caPath}, CrypkiEndpoints: list, CrypkiPort: uint(port), Retries: 1, PerTryTimeout: 10 * time.Second})
+			if err != nil {
+				continue
+			}
+			ctx, cancel := context.WithTimeout(context.Background(), 60*time.Second)
+			r.Eval(1)
+			certs, comments, serr := signer.Sign(ctx, &proto.SSHCertificateSigningRequest{KeyMeta: &proto.KeyMeta{Identifier: "x"}, Principals: []string{"a"}, PublicKey: "k", Validity: 60})
+			cancel()
+			wantCalls := map[bool]int{true: 1, false: 2}[first]
+			if serr != nil || len(certs) != 2 || len(comments) != 2 || len(byIP[ips[0]].Calls()) != wantCalls || len(byIP[ips[1]].Calls()) != 0 {
+				r.Violation(c, fmt.Sprintf("duplicate-endpoint-list-mishandled:variant=%d", variant), fmt.Sprintf("endpoints %v: err=%v certs=%d; first address saw %d requests (expected %d), the other %d (expected 0)", list, serr, len(certs), len(byIP[ips[0]].Calls()), wantCalls, len(byIP[ips[1]].Calls())), nil)
+			} else {
+				r.Count("duplicate endpoint lists judged", 1)
+			}
+		}
+	}
 	// a caller context that is already cancelled / past its deadline when Sign is entered: an error, never an empty success
 	for k, mode := range []string{"cancelled", "expired"} {
 		c := r.Case("sign-finished-context", k)
